@@ -8,7 +8,8 @@ C02 model of the objective and the C03 model of the result datasets.
                                    (`unlinkedProblems`, `linkedProblems`) the objective of C02 is built from
   * `stats`                        what `create_result` derives from `OptimizeResult.fun/x` and the clp count
   * `createStats`                  `stats` fed with the model's own objective and clp count
-  * `datasetStats`                 radicands of the two RMSE attributes of a result dataset (C03 `DsResult`)
+  * `datasetStats`                 radicands of the two RMSE attributes of a result dataset (C03 `DsResult`; the driver
+                                   applies it to `C03.resultsOwn`, the layout of the code after fix D27)
   * `covariance`                   `(Vt[mask].T / s²[mask]) @ Vt[mask]`, `mask = s > eps·max(shape)·s_max`, the SVD `(s, Vt)` being a parameter
   * `errSq`                        radicands of `rmse * sqrt(diag(cov))`
   * standard errors                `C11.assignStdErrs` (the loop is the one C11 models) applied to those errors
@@ -168,7 +169,8 @@ def driverStep (s : C02.DState) (ts : List Tree) : C02.DState × String :=
     | some per => (s, "clps " ++ showNats per)
     | none => (s, "err unsolvable")
   | [.atom "dsstats"] =>
-    match C03.results s.mi s.groups with
+    -- the result datasets of the repaired code (own global index order, fix D27)
+    match C03.resultsOwn s.mi s.groups with
     | some rs => (s, "dsstats " ++ showList (rs.map (fun r => showDsStats (datasetStats r))))
     | none => (s, "err unsolvable")
   | [.atom "cov", sv, vt, m, n] =>
